@@ -34,8 +34,8 @@ def make(i, prop=None):
     grid = dict(r.choice(GRIDS))
     needs_free_T = grid["kind"] == "free" or grid.get("localize_T") or grid.get("localize_t0")
     kw["grid"] = grid
-    kw["T"] = r.choice([("free", 1.5)] if needs_free_T else [("free", 1.5), ("fixed", 2.0), ("unknown",), ("unknown",), ("param",)])
-    kw["t0"] = r.choice([("fixed", 0.0), ("fixed", 0.5), ("free", 0.25), ("unknown",), ("param",)])
+    kw["T"] = r.choice([("free", 1.5), ("free", "unknown")] if needs_free_T else [("free", 1.5), ("free", "unknown"), ("fixed", 2.0), ("unknown",), ("unknown",), ("param",)])
+    kw["t0"] = r.choice([("fixed", 0.0), ("fixed", 0.5), ("free", 0.25), ("free", -0.75), ("free", "unknown"), ("unknown",), ("param",)])
     dae = method == "DC" and r.random() < 0.35
     kw["states"] = _sizes(r, [[1], [2], [1, 2], [2, 1]])
     kw["controls"] = _sizes(r, [[1], [1], [2], [1, 1], []])
@@ -139,6 +139,9 @@ def make(i, prop=None):
         elif kind == "value" and glob:
             obj.append(("value", E(name, 1, tuple(glob))))
     kw["objective"] = obj
+    # later additions draw from their own sequence, so that the specifications generated so far keep their content
+    r2 = random.Random("rockit-spec-extra-%d" % i)
+    kw["der_order"] = r2.choice(["declared", "reversed"])
     return kw
 
 
@@ -173,6 +176,9 @@ def make_initial(i, kw):
         targets.append((("x", j), forms("x%d" % j, n, True, True)))
     for j, n in enumerate(kw["controls"]):
         targets.append((("u", j), forms("u%d" % j, n, False, True)))
+    if kw["method"] == "DC":
+        for j, n in enumerate(kw["algebraics"]):
+            targets.append((("z", j), [None, ("unknown", "g_z%d" % j, n, 1), E("ge_z%d" % j, n, ("t",))]))
     for j, n in enumerate(kw["variables"].get("", [])):
         targets.append(((("v", ""), j), forms("v%d" % j, n, False, False)))
     for j, n in enumerate(kw["variables"].get("control", [])):
